@@ -28,6 +28,10 @@ def run(rep):
     rep.guard(e11, rep, w)
     rep.guard(e12, rep, w)
     rep.guard(e13, rep, w)
+    import c19
+    rep.guard(c19.d4, rep, w)     # interpolation renders the value the expression produced: the string made is the one just formatted from it (a cache keyed by `==` gives -0 the text of 0)
+    import c08
+    rep.guard(c08.x2b, rep, w)    # break / continue leave the loop and nothing else: handlers of try blocks the loop itself sits in stay installed
     import c06
     rep.guard(c06.s12, rep, w, 'C05')   # break / continue leave the loop body's scopes: their locals come off the stack innermost first, or a captured loop variable keeps an open upvalue on a dead slot
     import c11
